@@ -1059,4 +1059,338 @@ Proof.
   - (* AViewClose *) simpl. apply (sinv_fields st); [repeat split|exact H].
 Qed.
 
+
+(* ---------------------------------------------------------------- API calls that change one tag *)
+Definition nameq (a b : N * tag) : Prop := fst a = fst b /\ t_live (snd a) = t_live (snd b).
+
+Lemma sorted_nameq a b : Forall2 nameq a b -> sorted a -> sorted b.
+Proof.
+  induction 1 as [|[k t] [k' t'] ra rb (E1 & _) HR IH]; [auto|]. simpl in *. subst k'.
+  intros (S1 & S2). split; [|apply IH; exact S2].
+  intros k' t'' I. destruct (Forall2_In_r _ _ _ _ HR I) as ([k0 t0] & I0 & (E & _)). simpl in E. subst. eapply S1; exact I0.
+Qed.
+
+Lemma nameq_tget a b x tx : Forall2 nameq a b -> tget x a = Some tx -> exists tx', tget x b = Some tx'.
+Proof.
+  intros H T. destruct (Forall2_tget nameq a b x tx H) as (tx' & T' & _); [|exact T|exists tx'; exact T'].
+  intros u v (A & C). split; assumption.
+Qed.
+
+Lemma tget_tset_eq n t' ts : t_live t' = true -> (exists k t, In (k, t) ts /\ k = n) -> tget n (tset n t' ts) = Some t'.
+Proof.
+  intros L (k & t & I & E). subst k. unfold tset. induction ts as [|[k x] r IH]; [destruct I|]. simpl.
+  destruct (N.eqb_spec k n) as [->|NE]; simpl.
+  - rewrite N.eqb_refl, L. reflexivity.
+  - destruct (N.eqb_spec k n); [congruence|]. apply IH. destruct I as [E|I]; [inversion E; congruence|exact I].
+Qed.
+
+Lemma tget_tset_ne n t' ts x : x <> n -> tget x (tset n t' ts) = tget x ts.
+Proof.
+  intros NE. unfold tset. induction ts as [|[k t] r IH]; [reflexivity|]. simpl.
+  destruct (N.eqb_spec k n) as [->|]; simpl.
+  - destruct (N.eqb_spec n x); [congruence|exact IH].
+  - destruct (k =? x); [reflexivity|exact IH].
+Qed.
+
+(* replacing a slot that no live tag references *)
+Lemma tv_tset_unref h n t' ts :
+  (forall k t, In (k, t) ts -> t_live t = true -> ~ In n (d_refs (t_def t))) ->
+  forall x id, x <> n -> tv h (tset n t' ts) x id = tv h ts x id.
+Proof.
+  unfold tset. induction ts as [|[k t] r IH]; intros U x id NE; [reflexivity|]. simpl.
+  assert (forall y i, y <> n -> tv h (map (fun kt => if fst kt =? n then (fst kt, t') else kt) r) y i = tv h r y i) as IH'.
+  { apply IH. intros; eapply U; [right; eassumption|assumption]. }
+  destruct (N.eqb_spec k n) as [->|Nk]; simpl.
+  - destruct (N.eqb_spec n x); [congruence|apply IH'; exact NE].
+  - destruct (k =? x); [|apply IH'; exact NE].
+    destruct (t_live t) eqn:L; [|reflexivity]. simpl. apply H_ext.
+    + intros y Hy. apply IH'. intros ->. apply (U k t (or_introl eq_refl) L). apply in_or_app. left. exact Hy.
+    + intros y Hy j _. apply IH'. intros ->. apply (U k t (or_introl eq_refl) L). apply in_or_app. right. exact Hy.
+Qed.
+
+Lemma inv_tset_unref h nx n t' ts :
+  (forall k t, In (k, t) ts -> t_live t = true -> ~ In n (d_refs (t_def t))) ->
+  (t_live t' = true -> forall id, id < nx -> mem id (t_u t') = false -> forall rho, mem id (t_m t') = truth h (t_def t') rho id) ->
+  inv h nx ts -> inv h nx (tset n t' ts).
+Proof.
+  unfold tset. induction ts as [|[k t] r IH]; intros U C HI; [exact I|]. simpl in *. destruct HI as (I1 & I2).
+  assert (inv h nx (map (fun kt => if fst kt =? n then (fst kt, t') else kt) r)) as IR.
+  { apply IH; [intros; eapply U; [right; eassumption|assumption]|exact C|exact I2]. }
+  destruct (N.eqb_spec k n) as [->|Nk]; simpl; (split; [|exact IR]).
+  - intros L id Hid Hu. apply C; assumption.
+  - intros L id Hid Hu. rewrite (I1 L id Hid Hu). apply H_ext.
+    + intros y Hy. symmetry. apply (tv_tset_unref h n t' r); [intros; eapply U; [right; eassumption|assumption]|].
+      intros ->. apply (U k t (or_introl eq_refl) L). apply in_or_app. left. exact Hy.
+    + intros y Hy j _. symmetry. apply (tv_tset_unref h n t' r); [intros; eapply U; [right; eassumption|assumption]|].
+      intros ->. apply (U k t (or_introl eq_refl) L). apply in_or_app. right. exact Hy.
+Qed.
+
+(* replacing a tag by one with the same definition whose matches are exact *)
+Lemma inv_tset_exact h nx n t' ts :
+  (forall k t, In (k, t) ts -> k = n -> t_def t = t_def t' /\ t_live t = t_live t') ->
+  (forall id rho, mem id (t_m t') = truth h (t_def t') rho id) ->
+  inv h nx ts -> inv h nx (tset n t' ts).
+Proof.
+  intros Hd Hex HI.
+  assert (Forall2 same1 ts (tset n t' ts)) as SM.
+  { apply Forall2_tset; [intros; repeat split|]. intros k t I E. destruct (Hd k t I E). unfold same1; simpl. auto. }
+  revert Hd HI SM. unfold tset. induction ts as [|[k t] r IH]; intros Hd HI SM; [exact I|]. simpl in *.
+  destruct HI as (I1 & I2). inversion SM; subst.
+  assert (inv h nx (map (fun kt => if fst kt =? n then (fst kt, t') else kt) r)) as IR.
+  { apply IH; [intros; eapply Hd; [right; eassumption|assumption]|exact I2|assumption]. }
+  destruct (N.eqb_spec k n) as [->|Nk]; simpl; (split; [|exact IR]).
+  - intros L id Hid Hu. apply Hex.
+  - intros L id Hid Hu. rewrite (I1 L id Hid Hu). apply H_ext; intros; apply tv_same; assumption.
+Qed.
+
+
+Lemma sorted_fst a b : Forall2 (fun x y : N * tag => fst x = fst y) a b -> sorted a -> sorted b.
+Proof.
+  induction 1 as [|[k t] [k' t'] ra rb E1 HR IH]; [auto|]. simpl in *. subst k'.
+  intros (S1 & S2). split; [|apply IH; exact S2].
+  intros k' t'' I. destruct (Forall2_In_r _ _ _ _ HR I) as ([k0 t0] & I0 & E). simpl in E. subst. eapply S1; exact I0.
+Qed.
+
+Lemma tset_fst n t' ts : Forall2 (fun x y : N * tag => fst x = fst y) ts (tset n t' ts).
+Proof. unfold tset. induction ts as [|[k t] r IH]; simpl; constructor; [destruct (k =? n); reflexivity|exact IH]. Qed.
+
+Lemma In_tset n t' ts k t : In (k, t) (tset n t' ts) -> (k = n /\ t = t') \/ (k <> n /\ In (k, t) ts).
+Proof.
+  unfold tset. induction ts as [|[k0 t0] r IH]; simpl; [intros []|].
+  destruct (N.eqb_spec k0 n) as [->|NE]; simpl; intros [E|I].
+  - inversion E; subst. left. split; reflexivity.
+  - destruct (IH I) as [A|(A & B)]; [left; exact A|right; split; [exact A|right; exact B]].
+  - inversion E; subst. right. split; [exact NE|left; reflexivity].
+  - destruct (IH I) as [A|(A & B)]; [left; exact A|right; split; [exact A|right; exact B]].
+Qed.
+
+Lemma sinv_tags st ts' :
+  Sinv st -> inv (hist st) (next st) ts' -> sorted ts' -> ranked ts' -> Sinv (set_tags st ts').
+Proof. intros (HI & Hn & So & Ra & Ji & Im) A B C. split; [exact A|split; [exact Hn|split; [exact B|split; [exact C|split; [exact Ji|exact Im]]]]]. Qed.
+
+Lemma refs_ok_spec n d ts : refs_ok n d ts = true -> forall x, In x (d_refs d) -> x < n /\ exists tx, tget x ts = Some tx.
+Proof.
+  unfold refs_ok. rewrite forallb_forall. intros H x Hx. specialize (H x Hx). apply andb_true_iff in H. destruct H as [A B].
+  split; [apply N.ltb_lt; exact A|]. destruct (tget x ts) as [tx|]; [exists tx; reflexivity|discriminate].
+Qed.
+
+(* a new tag in a slot nobody references; also deletion of a tag nobody references *)
+Lemma sinv_slot st n t' :
+  Sinv st ->
+  (forall k t, In (k, t) (tags st) -> t_live t = true -> ~ In n (d_refs (t_def t))) ->
+  (t_live t' = true -> forall id, id < next st -> mem id (t_u t') = false -> forall rho, mem id (t_m t') = truth (hist st) (t_def t') rho id) ->
+  (t_live t' = true -> (forall x, In x (d_refs (t_def t')) -> x < n /\ exists tx, tget x (tags st) = Some tx) /\ def_ok (t_def t')) ->
+  Sinv (set_tags st (tset n t' (tags st))).
+Proof.
+  intros HS U C R. pose proof HS as (HI & Hn & So & Ra & Ji & Im).
+  apply sinv_tags; [exact HS|apply inv_tset_unref; assumption|eapply sorted_fst; [apply tset_fst|exact So]|].
+  intros k t I L. destruct (In_tset _ _ _ _ _ I) as [(-> & ->)|(NE & I0)].
+  - destruct (R L) as (Rf & Dk). split; [|exact Dk]. intros x Hx. destruct (Rf x Hx) as (Lx & tx & Tx).
+    split; [exact Lx|]. exists tx. rewrite tget_tset_ne; [exact Tx|lia].
+  - destruct (Ra k t I0 L) as (Rf & Dk). split; [|exact Dk]. intros x Hx. destruct (Rf x Hx) as (Lx & tx & Tx).
+    split; [exact Lx|]. exists tx. rewrite tget_tset_ne; [exact Tx|].
+    intros ->. apply (U k t I0 L). exact Hx.
+Qed.
+
+Lemma ranked_unref st n : Sinv st -> tget n (tags st) = None ->
+  forall k t, In (k, t) (tags st) -> t_live t = true -> ~ In n (d_refs (t_def t)).
+Proof.
+  intros (_ & _ & _ & Ra & _) Tn k t I L Hin. destruct (Ra k t I L) as (Rf & _).
+  destruct (Rf n Hin) as (_ & tx & Tx). congruence.
+Qed.
+
+Lemma referenced_false n ts : referenced n ts = false ->
+  forall k t, In (k, t) ts -> t_live t = true -> ~ In n (d_refs (t_def t)).
+Proof.
+  unfold referenced. intros H k t I _ Hin.
+  assert (existsb (fun nt => memN n (d_refs (t_def (snd nt)))) ts = true); [|congruence].
+  apply existsb_exists. exists (k, t). split; [exact I|]. simpl. unfold memN. apply existsb_exists.
+  exists n. split; [exact Hin|apply N.eqb_refl].
+Qed.
+
+
+(* a live tag is replaced (query update, mark add/del) and uncertainty is inherited *)
+Lemma sinv_replace_inherit st n ot t2 :
+  Sinv st -> tget n (tags st) = Some ot -> t_live t2 = true ->
+  (forall id, id < next st -> mem id (t_u t2) = false ->
+     (forall rho, truth (hist st) (t_def t2) rho id = truth (hist st) (t_def ot) rho id) /\
+     mem id (t_u ot) = false /\ mem id (t_m t2) = mem id (t_m ot)) ->
+  ((forall x, In x (d_refs (t_def t2)) -> x < n /\ exists tx, tget x (tags st) = Some tx) /\ def_ok (t_def t2)) ->
+  Sinv (set_tags st (inherit (all st) (tset n t2 (tags st)))).
+Proof.
+  intros HS Tn L2 C R. pose proof HS as (HI & Hn & So & Ra & Ji & Im).
+  destruct (tget_In _ _ _ Tn) as (In_n & Ln).
+  assert (forall k t, In (k, t) (tags st) -> k = n -> t = ot) as UQ.
+  { intros k t I ->. eapply sorted_unique; eassumption. }
+  set (ts1 := tset n t2 (tags st)).
+  pose proof (grow_inherit (next st) ts1) as GR. fold (all st) in GR.
+  apply sinv_tags; [exact HS| | |].
+  - eapply inv_urel with (nx := next st) (h := hist st); [|apply closed_inherit|rewrite Hn; lia|exact HI].
+    apply urel_intro. eapply Forall2_qrel_grow; [|exact GR].
+    apply Forall2_tset; [intros; apply qrel_refl|]. intros k t I E. rewrite (UQ k t I E). subst k.
+    unfold qrel, pcond; simpl. split; [reflexivity|split; [split; [congruence|]|]].
+    + intros _ id Hid Hu rho. apply (C id Hid Hu).
+    + intros _. left. intros id Hid Hu. destruct (C id Hid Hu) as (_ & A & B). auto.
+  - eapply sorted_same; [eapply grow_same; exact GR|]. eapply sorted_fst; [apply tset_fst|exact So].
+  - eapply ranked_same; [eapply grow_same; exact GR|].
+    intros k t I L. destruct (In_tset _ _ _ _ _ I) as [(-> & ->)|(NE & I0)].
+    + destruct R as (Rf & Dk). split; [|exact Dk]. intros x Hx. destruct (Rf x Hx) as (Lx & tx & Tx).
+      split; [exact Lx|]. exists tx. unfold ts1. rewrite tget_tset_ne; [exact Tx|lia].
+    + destruct (Ra k t I0 L) as (Rf & Dk). split; [|exact Dk]. intros x Hx. destruct (Rf x Hx) as (Lx & tx & Tx).
+      split; [exact Lx|]. destruct (N.eq_dec x n) as [->|NX].
+      * exists t2. apply tget_tset_eq; [exact L2|exists n, ot; split; [exact In_n|reflexivity]].
+      * exists tx. unfold ts1. rewrite tget_tset_ne; assumption.
+Qed.
+
+(* clearing Uncertain of a tag whose matches are exact (mark tags after add/del) *)
+Lemma sinv_clear_exact st n x :
+  Sinv st -> tget n (tags st) = Some x ->
+  (forall id rho, mem id (t_m x) = truth (hist st) (t_def x) rho id) ->
+  Sinv (set_tags st (tset n (mkTag (t_def x) (t_m x) 0 (t_conv x)) (tags st))).
+Proof.
+  intros HS Tn Hex. pose proof HS as (HI & Hn & So & Ra & Ji & Im).
+  destruct (tget_In _ _ _ Tn) as (In_n & Ln).
+  assert (forall k t, In (k, t) (tags st) -> k = n -> t = x) as UQ.
+  { intros k t I ->. eapply sorted_unique; eassumption. }
+  assert (Forall2 same1 (tags st) (tset n (mkTag (t_def x) (t_m x) 0 (t_conv x)) (tags st))) as SM.
+  { apply Forall2_tset; [intros; repeat split|]. intros k t I E. rewrite (UQ k t I E). unfold same1; simpl. auto. }
+  apply sinv_tags; [exact HS| |eapply sorted_same; eassumption|eapply ranked_same; eassumption].
+  apply inv_tset_exact; [|exact Hex|exact HI].
+  intros k t I E. rewrite (UQ k t I E). simpl. auto.
+Qed.
+
+
+(* ---------------------------------------------------------------- C06: API calls on tags *)
+Definition newset_of (t : tag) (ids : list N) : N :=
+  fold_left (fun a s => add1 s a) (filter (fun s => negb (mem s (t_m t))) ids) 0.
+Definition oldset_of (t : tag) (ids : list N) : N :=
+  fold_left (fun a s => add1 s a) (filter (fun s => mem s (t_m t)) ids) 0.
+Definition markadd_def (t : tag) (ids : list N) (did : N) : defn :=
+  match filter (fun s => negb (mem s (t_m t))) ids with [] => t_def t | _ => with_def_id (t_def t) did end.
+
+(* environment: a definition handed to AddTag / UpdateTag is well formed; the definition of a mark tag
+   denotes exactly its match set, before and after the rewrite done by mark add / del *)
+Definition act_ok_api (st : state) (a : action) : Prop :=
+  match a with
+  | AAddTag n d ids => def_ok d /\ (d_mark d = true -> forall h rho id, truth h d rho id = mem id ids)
+  | AQuery n d => def_ok d
+  | AMarkAdd n ids did => forall t, tget n (tags st) = Some t ->
+      (forall h rho id, truth h (t_def t) rho id = mem id (t_m t)) /\
+      (forall h rho id, truth h (markadd_def t ids did) rho id = mem id (union (t_m t) (newset_of t ids)))
+  | AMarkDel n ids did => forall t, tget n (tags st) = Some t ->
+      (forall h rho id, truth h (t_def t) rho id = mem id (t_m t)) /\
+      (forall h rho id, truth h (with_def_id (t_def t) did) rho id = mem id (diff (t_m t) (oldset_of t ids)))
+  | _ => True
+  end.
+
+Lemma detach_defs st m c k t : In (k, t) (tags (detach st m c)) ->
+  exists t0, In (k, t0) (tags st) /\ t_def t0 = t_def t /\ t_live t0 = t_live t.
+Proof.
+  unfold detach. destruct (tget m (tags st)) as [tm0|] eqn:Tm; [|intros I; exists t; auto].
+  assert (In (k, t) (tset m (mkTag (t_def tm0) (t_m tm0) (t_u tm0) (filter (fun x => negb (x =? c)) (t_conv tm0))) (tags st)) ->
+          exists t0, In (k, t0) (tags st) /\ t_def t0 = t_def t /\ t_live t0 = t_live t) as HH.
+  { intros I. destruct (In_tset _ _ _ _ _ I) as [(-> & ->)|(_ & I0)]; [|exists t; auto].
+    destruct (tget_In _ _ _ Tm) as (I0 & L0). exists tm0. simpl. auto. }
+  match goal with |- context[if ?b then _ else _] => destruct b end; simpl; exact HH.
+Qed.
+
+Lemma fold_detach_defs m l : forall st k t, In (k, t) (tags (fold_left (fun s c => detach s m c) l st)) ->
+  exists t0, In (k, t0) (tags st) /\ t_def t0 = t_def t /\ t_live t0 = t_live t.
+Proof.
+  induction l as [|c l IH]; simpl; intros st k t I; [exists t; auto|].
+  destruct (IH _ _ _ I) as (t1 & I1 & D1 & L1). destruct (detach_defs _ _ _ _ _ I1) as (t0 & I0 & D0 & L0).
+  exists t0. split; [exact I0|split; congruence].
+Qed.
+
+Lemma with_def_id_refs d i : d_refs (with_def_id d i) = d_refs d /\ (def_ok d -> def_ok (with_def_id d i)).
+Proof. split; [reflexivity|]. unfold def_ok. simpl. auto. Qed.
+
+Theorem sinv_step_api k p a st :
+  act_ok_api st a -> Sinv st ->
+  match a with AAddTag _ _ _ | ADelTag _ | AQuery _ _ | AMarkAdd _ _ _ | AMarkDel _ _ _ => Sinv (step k p a st) | _ => True end.
+Proof.
+  intros Hok H. destruct a; try exact I.
+  - (* AAddTag *) simpl. destruct (tget n (tags st)) eqn:Tn; [exact H|].
+    destruct (refs_ok n d (tags st)) eqn:RO; [|exact H]. destruct Hok as (Dk & Mk).
+    pose proof (ranked_unref st n H Tn) as U. pose proof (refs_ok_spec _ _ _ RO) as RS.
+    destruct (d_mark d) eqn:DM.
+    + apply sinv_slot; try assumption; simpl.
+      * intros _ id _ _ rho. symmetry. apply Mk. reflexivity.
+      * intros _. split; assumption.
+    + apply sinv_start_tagging. apply sinv_slot; try assumption; simpl.
+      * intros _ id Hid Hu. unfold all in Hu. rewrite mem_ones in Hu; [discriminate|exact Hid].
+      * intros _. split; assumption.
+  - (* ADelTag *) simpl. destruct (tget n (tags st)) as [t|] eqn:Tn; [|exact H].
+    destruct (referenced n (tags st)) eqn:RF; [exact H|].
+    set (st1 := fold_left (fun s c => detach s n c) (t_conv t) st).
+    assert (Sinv st1) as H1 by (apply sinv_fold; [intros; apply sinv_detach; assumption|exact H]).
+    apply sinv_slot; try assumption.
+    + intros k0 t0 I L Hin. destruct (fold_detach_defs _ _ _ _ _ I) as (t1 & I1 & D1 & L1).
+      apply (referenced_false n (tags st) RF k0 t1 I1); [congruence|rewrite D1; exact Hin].
+    + simpl. discriminate.
+    + simpl. discriminate.
+  - (* AQuery *) simpl. destruct (tget n (tags st)) as [t|] eqn:Tn; [|exact H].
+    destruct (refs_ok n d (tags st)) eqn:RO; [|exact H].
+    apply sinv_start_converter, sinv_start_tagging.
+    apply (sinv_replace_inherit st n t); try assumption; simpl; [reflexivity| |].
+    + intros id Hid Hu. unfold all in Hu. rewrite mem_ones in Hu; [discriminate|exact Hid].
+    + split; [apply refs_ok_spec; exact RO|exact Hok].
+  - (* AMarkAdd *) simpl. destruct (tget n (tags st)) as [t|] eqn:Tn; [|exact H]. destruct ids as [|i0 ids]; [exact H|].
+    destruct (next st <=? maxl (i0 :: ids)); [exact H|].
+    destruct (Hok t Tn) as (Ex0 & Ex1). unfold markadd_def, newset_of in Ex1.
+    set (new := filter (fun s => negb (mem s (t_m t))) (i0 :: ids)) in *.
+    set (newset := fold_left (fun a s => add1 s a) new 0) in *.
+    set (d' := match new with [] => t_def t | _ :: _ => with_def_id (t_def t) did end) in *.
+    set (t' := mkTag d' (union (t_m t) newset) (union (t_u t) newset) (t_conv t)).
+    set (st1 := queue_matches st (t_conv t) newset).
+    assert (Sinv st1) as H1 by (apply (sinv_fields st); [repeat split|exact H]).
+    pose proof H as (_ & _ & So & Ra & _).
+    destruct (tget_In _ _ _ Tn) as (In_n & Ln). destruct (Ra n t In_n Ln) as (Rf & Dk).
+    assert (d_refs d' = d_refs (t_def t) /\ def_ok d') as (RD & DD).
+    { unfold d'. destruct new; [split; [reflexivity|exact Dk]|]. destruct (with_def_id_refs (t_def t) did). split; auto. }
+    assert (Sinv (set_tags st1 (inherit (all st1) (tset n t' (tags st1))))) as H2.
+    { apply (sinv_replace_inherit st1 n t); try assumption; simpl; [reflexivity| |].
+      - intros id Hid Hu. rewrite mem_union in Hu. apply orb_false_iff in Hu. destruct Hu as [Hu1 Hu2].
+        split; [|split; [exact Hu1|rewrite mem_union, Hu2; apply orb_false_r]].
+        intros rho. rewrite Ex1, Ex0, mem_union, Hu2. apply orb_false_r.
+      - rewrite RD. split; assumption. }
+    apply sinv_start_converter, sinv_start_tagging. change (all st) with (all st1).
+    set (ts1 := inherit (all st1) (tset n t' (tags st1))) in *.
+    assert (exists x, tget n ts1 = Some x /\ t_def x = d' /\ t_m x = union (t_m t) newset) as (x & Tx & Dx & Mx).
+    { assert (tget n (tset n t' (tags st1)) = Some t') as T1 by (apply tget_tset_eq; [reflexivity|exists n, t; split; [exact In_n|reflexivity]]).
+      destruct (Forall2_tget (grow1 (next st1)) _ _ n t' (grow_inherit (next st1) (tset n t' (tags st1)))) as (x & Tx & ((_ & A & _) & B & _)); [|exact T1|].
+      { intros a b ((A1 & _ & A3) & _). split; assumption. }
+      exists x. simpl in A, B. split; [exact Tx|split; congruence]. }
+    match goal with |- context[tget n ?T] => replace (tget n T) with (Some x) by (symmetry; exact Tx) end.
+    assert (forall id rho, mem id (t_m x) = truth (hist (set_tags st1 ts1)) (t_def x) rho id) as Hex.
+    { intros id rho. simpl. rewrite Dx, Mx. symmetry. apply Ex1. }
+    exact (sinv_clear_exact (set_tags st1 ts1) n x H2 Tx Hex).
+  - (* AMarkDel *) simpl. destruct (tget n (tags st)) as [t|] eqn:Tn; [|exact H]. destruct ids as [|i0 ids]; [exact H|].
+    destruct (next st <=? maxl (i0 :: ids)); [exact H|].
+    destruct (Hok t Tn) as (Ex0 & Ex1). unfold oldset_of in Ex1.
+    set (oldset := fold_left (fun a s => add1 s a) (filter (fun s => mem s (t_m t)) (i0 :: ids)) 0) in *.
+    set (d' := with_def_id (t_def t) did) in *.
+    set (t' := mkTag d' (diff (t_m t) oldset) (union (t_u t) oldset) (t_conv t)).
+    pose proof H as (_ & _ & So & Ra & _).
+    destruct (tget_In _ _ _ Tn) as (In_n & Ln). destruct (Ra n t In_n Ln) as (Rf & Dk).
+    destruct (with_def_id_refs (t_def t) did) as (RD & DD).
+    assert (Sinv (set_tags st (inherit (all st) (tset n t' (tags st))))) as H2.
+    { apply (sinv_replace_inherit st n t); try assumption; simpl; [reflexivity| |].
+      - intros id Hid Hu. rewrite mem_union in Hu. apply orb_false_iff in Hu. destruct Hu as [Hu1 Hu2].
+        split; [|split; [exact Hu1|rewrite mem_diff, Hu2; apply andb_true_r]].
+        intros rho. unfold d'. rewrite Ex1, Ex0, mem_diff, Hu2. apply andb_true_r.
+      - unfold d'. rewrite RD. split; auto. }
+    apply sinv_start_converter, sinv_start_tagging.
+    set (ts1 := inherit (all st) (tset n t' (tags st))) in *.
+    assert (exists x, tget n ts1 = Some x /\ t_def x = d' /\ t_m x = diff (t_m t) oldset) as (x & Tx & Dx & Mx).
+    { assert (tget n (tset n t' (tags st)) = Some t') as T1 by (apply tget_tset_eq; [reflexivity|exists n, t; split; [exact In_n|reflexivity]]).
+      destruct (Forall2_tget (grow1 (next st)) _ _ n t' (grow_inherit (next st) (tset n t' (tags st)))) as (x & Tx & ((_ & A & _) & B & _)); [|exact T1|].
+      { intros a b ((A1 & _ & A3) & _). split; assumption. }
+      exists x. simpl in A, B. split; [exact Tx|split; congruence]. }
+    match goal with |- context[tget n ?T] => replace (tget n T) with (Some x) by (symmetry; exact Tx) end.
+    assert (forall id rho, mem id (t_m x) = truth (hist (set_tags st ts1)) (t_def x) rho id) as Hex.
+    { intros id rho. simpl. rewrite Dx, Mx. symmetry. apply Ex1. }
+    exact (sinv_clear_exact (set_tags st ts1) n x H2 Tx Hex).
+Qed.
+
 End C06.
